@@ -82,4 +82,17 @@ def splitFirstDot (s : String) : Option (String × String) :=
   | a :: b :: rest => some (a, ".".intercalate (b :: rest))
   | _ => none
 
+/-- `replace_model_placeholder` on a column name -/
+def replacePlaceholder (m : SModel) (c : String) : String :=
+  if c.startsWith "{model}." then
+    (match m.source with
+     | .subquery _ _ => "t." ++ (c.drop 8).toString
+     | .table _ => (c.drop 8).toString)
+  else c
+
+/-- metric-level filter inside the CTE: `.replace("{model}.", "").replace("{model}", "")` -/
+def stripPlaceholder (c : String) : String :=
+  if c.startsWith "{model}." then (c.drop 8).toString else c
+
+
 end SideVerif
